@@ -107,7 +107,11 @@ func vfNewSession(expired bool) (val string, err error) {
 }
 
 // vfCredKinds are the credential classes that must NOT authenticate.
-var vfBadCreds = []string{"none", "unknown_cookie", "malformed_cookie", "empty_cookie", "expired_session", "wrong_basic", "unknown_user_basic", "basic_empty_pass", "logged_out_session"}
+var vfBadCreds = []string{"none", "unknown_cookie", "malformed_cookie", "empty_cookie", "expired_session", "wrong_basic", "unknown_user_basic", "basic_empty_pass", "logged_out_session",
+	"basic_account_without_usable_hash"}
+
+// vfWeakCredSeq makes successive uses of the weak accounts differ.
+var vfWeakCredSeq int
 
 func vfApplyBadCred(r *http.Request, kind string, expiredCookie, loggedOutCookie string) {
 	switch kind {
@@ -122,6 +126,11 @@ func vfApplyBadCred(r *http.Request, kind string, expiredCookie, loggedOutCookie
 		r.AddCookie(&http.Cookie{Name: sessionCookieName, Value: expiredCookie})
 	case "logged_out_session":
 		r.AddCookie(&http.Cookie{Name: sessionCookieName, Value: loggedOutCookie})
+	case "basic_account_without_usable_hash":
+		vfWeakCredSeq++
+		u := vfWeakUsers[vfWeakCredSeq%len(vfWeakUsers)]
+		pw := []string{"", "x", "letmein", vfAdminPass, "$1$saltsalt$qjXMvbEw8oaL.CzflDtaK/"}[(vfWeakCredSeq/len(vfWeakUsers))%5]
+		r.SetBasicAuth(u, pw)
 	case "wrong_basic":
 		r.SetBasicAuth(vfAdminUser, "wrong password")
 	case "unknown_user_basic":
@@ -558,6 +567,44 @@ func TestVFC11PublicAndValid(t *testing.T) {
 	rec = do("GET", "/control/status", "", "", withCookie)
 	if v := vfUnauthVerdict(rec); v != "forbidden" {
 		t.Fatalf("request with a logged-out cookie: %s", v)
+	}
+
+	// ... and stays dead when the program is restarted (the session database
+	// is read again), while a session that was not logged out survives
+	keep, kerr := vfNewSession(false)
+	if kerr != nil {
+		t.Fatalf("VERIF-INCONCLUSIVE session: %v", kerr)
+	}
+	if rerr := vfRestartAuth(); rerr != nil {
+		t.Fatalf("VERIF-INCONCLUSIVE restarting the authentication module: %v", rerr)
+	}
+	vfC11.Eval()
+	vfC11.Class("restart:logged_out_cookie")
+	vfC11.Nontrivial("restart|logged_out_cookie")
+	rec = do("GET", "/control/status", "", "", withCookie)
+	if v := vfUnauthVerdict(rec); v != "forbidden" {
+		t.Fatalf("request with a logged-out cookie after a restart: %s", v)
+	}
+	rec = do("GET", "/control/status", "", "", func(r *http.Request) { r.AddCookie(&http.Cookie{Name: sessionCookieName, Value: keep}) })
+	if rec.Code != http.StatusOK {
+		t.Fatalf("a session that was not logged out is refused after a restart: status %d", rec.Code)
+	}
+
+	// accounts without a usable password hash cannot log in with any password
+	for _, u := range vfWeakUsers {
+		for _, pw := range []string{"", "x", "letmein", vfAdminPass, "$1$saltsalt$qjXMvbEw8oaL.CzflDtaK/"} {
+			rec = do("POST", "/control/login", "application/json", fmt.Sprintf(`{"name":%q,"password":%q}`, u, pw), nil)
+			vfC11.Eval()
+			vfC11.Class("weak_account_login")
+			vfC11.Nontrivial("weak_login|" + u + "|" + pw)
+			got := false
+			for _, c := range rec.Result().Cookies() {
+				got = got || (c.Name == sessionCookieName && c.Value != "")
+			}
+			if rec.Code == http.StatusOK || got {
+				t.Fatalf("login as %q (an account without a usable password hash) with password %q: status %d, session cookie handed out: %t", u, pw, rec.Code, got)
+			}
+		}
 	}
 }
 
